@@ -1,5 +1,6 @@
 import FsModel.Ref
 import FsModel.RefAdm
+import FsModel.Mem
 import FsModel.Proto
 
 namespace Fs.RefDriver
@@ -85,6 +86,13 @@ def handle (cmd : String) (args : List String) : Option String :=
     let (s', out) := step s op
     some (res valStr out ++ " | " ++ dumpTree s'.root ++ " | " ++ boolStr s'.closed ++ " | adm=" ++
       ",".intercalate ((adm s op).map Err.name) ++ " | wf=" ++ boolStr (s'.root.wf))
+  | "mem.step" => do
+    let c ← args[0]?
+    let t ← loadTree (← args[1]?)
+    let op ← parseOp (args.drop 2)
+    let s : State := { root := t, closed := c == "1" }
+    let (s', out) := Mem.step s op
+    some (res valStr out ++ " | " ++ dumpTree s'.root ++ " | " ++ boolStr s'.closed ++ " | adm= | wf=" ++ boolStr (s'.root.wf))
   | "ref.roundtrip" => do
     let t ← loadTree (← args[0]?)
     some (dumpTree t)
